@@ -1,6 +1,9 @@
 // C04 harness: histories on a real CacheDB over a real OverlayDB over leveldbstore.NewMemLevelDBStore().
 // Ops: s:k:v store.Put (pre-population) · p:k:v d:k g:k i:prefix:n c r on the CacheDB (keys get ST_STORAGE) ·
 // bp:k:v bd:k bg:k bi:prefix:n bc bk br on the OverlayDB (raw keys). n = elements taken before Release ("a" = drain).
+// Deferred iterators: io:id:prefix / bo:id:prefix = NewIterator on the CacheDB / OverlayDB, kept open under id while
+// other ops run (several at once); in:id:n = First/Next for n elements, then Release. Every key/prefix buffer handed to
+// the real code is clobbered after the call returns.
 // Output = every Get / iterator result + final write set, store content and full views (compared with the Lean model).
 // Predicate on the implementation's own outputs: a three-map reference (tx writes, block writes, store) — every
 // read returns the most recent write, every iterator yields exactly the live keys with the prefix, ascending.
@@ -68,12 +71,45 @@ func gen(r *hx.Rand, tier string, i int) string {
 		ops = append(ops, "s:"+rkey(r)+":"+val(r, 5))
 	}
 	n := 2 + r.Intn(24)
+	var pending []string
+	nextID := 0
+	readsOnly := 0
 	for j := 0; j < n; j++ {
-		switch x := r.Intn(100); {
-		case x < 22:
+		if len(pending) > 0 && r.Chance(30) { // drain (or abandon after a few elements) one of the open iterators
+			i := r.Intn(len(pending))
+			ops = append(ops, "in:"+pending[i]+":"+take(r))
+			pending = append(pending[:i], pending[i+1:]...)
+			continue
+		}
+		x := r.Intn(100)
+		if len(pending) > 0 && len(pending) < 3 && r.Chance(12) {
+			x = 30 // a second / third iterator while one is open
+		}
+		if readsOnly > 0 { // right after an iterator was opened: mostly pure reads of keys below / above / inside the prefix
+			readsOnly--
+			if r.Chance(75) {
+				x = 34 + r.Intn(10)
+				if r.Chance(25) {
+					x = 80 + r.Intn(5)
+				}
+			}
+		}
+		switch {
+		case x < 20:
 			ops = append(ops, "p:"+ckey(r)+":"+val(r, 10))
-		case x < 34:
+		case x < 30:
 			ops = append(ops, "d:"+ckey(r))
+		case x < 34:
+			id := strconv.Itoa(nextID)
+			nextID++
+			if r.Chance(75) {
+				p := r.Pick(cachePrefixes)
+				ops = append(ops, "io:"+id+":"+p)
+			} else {
+				ops = append(ops, "bo:"+id+":"+r.Pick(rawPrefixes))
+			}
+			pending = append(pending, id)
+			readsOnly = 1 + r.Intn(3)
 		case x < 44:
 			ops = append(ops, "g:"+ckey(r))
 		case x < 58:
@@ -101,6 +137,11 @@ func gen(r *hx.Rand, tier string, i int) string {
 		default:
 			ops = append(ops, "br")
 		}
+	}
+	for _, id := range pending {
+		if r.Chance(80) {
+			ops = append(ops, "in:"+id+":"+take(r))
+		} // else: never positioned, released at the end of the case
 	}
 	return "L " + strings.Join(ops, ";")
 }
@@ -272,12 +313,44 @@ func exec(line string) hx.Result {
 		return n, err == nil && n >= 0
 	}
 	pk := func(k []byte) string { return string(append([]byte{5}, k...)) }
+	type openIt struct {
+		it     scommon.StoreIterator
+		cache  bool
+		prefix []byte
+		psnap  map[string][]byte // store content when the iterator was created (LevelDB iterators read a snapshot)
+		dirty  bool              // a state-changing op ran since creation
+	}
+	open := map[string]*openIt{}
+	var openOrder []string
+	defer func() {
+		for _, id := range openOrder {
+			if o, ok := open[id]; ok {
+				o.it.Release()
+			}
+		}
+	}()
+	clobber := func(bs ...[]byte) { // "it is safe to modify the arguments after the call returns"
+		for _, b := range bs {
+			for i := range b {
+				b[i] ^= 0xa5
+			}
+		}
+	}
+	cp := func(b []byte) []byte { return append([]byte{}, b...) }
+	markDirty := func() {
+		for _, o := range open {
+			o.dirty = true
+		}
+	}
 	for _, o := range strings.Split(f[1], ";") {
 		a := strings.Split(o, ":")
 		var b [][]byte
 		okHex := true
 		for i, x := range a[1:] {
 			if (a[0] == "i" || a[0] == "bi") && i == 1 {
+				break
+			}
+			if a[0] == "io" || a[0] == "bo" || a[0] == "in" {
 				break
 			}
 			v, err := hx.Unhex(x)
@@ -289,7 +362,82 @@ func exec(line string) hx.Result {
 		if !okHex {
 			return hx.Result{Out: "bad-op"}
 		}
+		switch a[0] {
+		case "s", "p", "d", "c", "r", "bp", "bd", "bc", "bk", "br":
+			markDirty()
+		}
 		switch {
+		case (a[0] == "io" || a[0] == "bo") && len(a) == 3:
+			id := a[1]
+			pfx, err := hx.Unhex(a[2])
+			if err != nil {
+				return hx.Result{Out: "bad-op"}
+			}
+			if old, ok := open[id]; ok {
+				old.it.Release()
+			}
+			arg := cp(pfx)
+			o := &openIt{cache: a[0] == "io", prefix: pfx, psnap: map[string][]byte{}}
+			for k, v := range m.p {
+				o.psnap[k] = v
+			}
+			if o.cache {
+				o.it = cache.NewIterator(arg)
+				clobber(arg) // CacheDB.NewIterator copies the key; OverlayDB.NewIterator documents that it keeps a reference
+			} else {
+				o.it = ov.NewIterator(arg)
+			}
+			open[id] = o
+			openOrder = append(openOrder, id)
+			if len(open) >= 2 {
+				kinds["iters-open>=2"] = true
+			}
+		case a[0] == "in" && len(a) == 3:
+			n, ok := parseN(a[2])
+			if !ok {
+				return hx.Result{Out: "bad-op"}
+			}
+			o, isOpen := open[a[1]]
+			if !isOpen {
+				outs = append(outs, "i=none")
+				break
+			}
+			delete(open, a[1])
+			got := drain(o.it, n)
+			outs = append(outs, "i="+showKVs(got))
+			mm := &ref{m.t, m.b, o.psnap}
+			lv, level, pfx := 1, "overlay", o.prefix
+			if o.cache {
+				lv, level, pfx = 0, "cache", append([]byte{5}, o.prefix...)
+			}
+			want := mm.live(lv, pfx)
+			if n < len(want) {
+				want = want[:n]
+			}
+			gp := got
+			if o.cache {
+				gp = make([]kv, len(got))
+				for i, e := range got {
+					gp[i] = kv{append([]byte{5}, e.k...), e.v}
+				}
+			}
+			tag := "deferred-"
+			if o.dirty {
+				tag = "deferred-after-writes-"
+				kinds["iter-deferred-after-writes"] = true
+			} else {
+				kinds["iter-deferred-reads-only"] = true
+			}
+			if showKVs(gp) != showKVs(want) {
+				ws := want
+				if o.cache {
+					ws = make([]kv, len(want))
+					for i, e := range want {
+						ws[i] = kv{e.k[1:], e.v}
+					}
+				}
+				fail(tag+iterClass(level, gp, want, mm, lv), fmt.Sprintf("%s iterator(%s) opened earlier yields %s, live keys with the prefix are %s", level, hx.Hex(o.prefix), showKVs(got), showKVs(ws)))
+			}
 		case a[0] == "s" && len(a) == 3:
 			if err := store.Put(b[0], b[1]); err != nil {
 				return hx.Result{Out: "bad-op"}
@@ -299,10 +447,14 @@ func exec(line string) hx.Result {
 				kinds["store-empty-value"] = true
 			}
 		case a[0] == "p" && len(a) == 3:
-			cache.Put(b[0], b[1])
+			ka, va := cp(b[0]), cp(b[1])
+			cache.Put(ka, va)
+			clobber(ka, va)
 			m.t[pk(b[0])] = b[1]
 		case a[0] == "d" && len(a) == 2:
-			cache.Delete(b[0])
+			ka := cp(b[0])
+			cache.Delete(ka)
+			clobber(ka)
 			m.t[pk(b[0])] = []byte{}
 		case a[0] == "g" && len(a) == 2:
 			v, err := cache.Get(b[0])
@@ -320,7 +472,10 @@ func exec(line string) hx.Result {
 			if !ok {
 				return hx.Result{Out: "bad-op"}
 			}
-			got := drain(cache.NewIterator(b[0]), n)
+			ka := cp(b[0])
+			cit := cache.NewIterator(ka)
+			clobber(ka)
+			got := drain(cit, n)
 			outs = append(outs, "i="+showKVs(got))
 			want := m.live(0, append([]byte{5}, b[0]...))
 			for i := range want {
@@ -484,7 +639,7 @@ func exec(line string) hx.Result {
 func main() {
 	hx.Main(hx.Prop{
 		ID:   "C04",
-		Rule: "histories (0–6 pre-populated store entries, 2–25 ops) mixing put/delete/get/iterate(prefix, drained or abandoned after 0–3 elements)/commit/reset on a real CacheDB and put/delete/get/iterate/commit/reset on its OverlayDB over a memory LevelDB; keys from an alphabet sharing prefixes (empty key, 00.., ff.., ST_STORAGE neighbours 04ff/06), empty values in all layers. Non-trivial = history with at least one get/iterate observation; kinds = features reached (which layer answered a get, abandoned iterators, key on both sides of the join, tombstones, one side empty)",
+		Rule: "histories (0–6 pre-populated store entries, 2–25 ops) mixing put/delete/get/iterate(prefix, drained or abandoned after 0–3 elements)/commit/reset on a real CacheDB and put/delete/get/iterate/commit/reset on its OverlayDB over a memory LevelDB; keys from an alphabet sharing prefixes (empty key, 00.., ff.., ST_STORAGE neighbours 04ff/06), empty values in all layers. 30% of the histories keep iterators open (several at once) across other ops - mostly pure Gets of keys below/above/inside the prefix, also writes/commits/resets - before First() is called. Non-trivial = history with at least one get/iterate observation; kinds = features reached (which layer answered a get, abandoned iterators, key on both sides of the join, tombstones, one side empty)",
 		Gen:  gen,
 		Exec: exec,
 		Corpus: []string{
@@ -497,6 +652,11 @@ func main() {
 			"L s:0500:-;s:0501:02;i:-:a;g:00;bg:0500",
 			"L p:00:01;p:01:02;r;i:-:a;p:01:03;c;r;i:-:a;d:01;c;bk;i:-:a;br;i:-:a",
 			"L s:0501:01;bd:0501;p:01:07;i:-:a;r;i:-:a;bi:05:a;br;i:-:a",
+			"L s:050001:01;s:050002:02;s:0501:03;p:0003:04;io:0:00;g:ff;in:0:a",
+			"L s:050001:01;s:050002:02;s:04ff:03;p:0003:04;io:0:00;g:-;in:0:a",
+			"L s:0500:01;p:01:02;io:0:-;io:1:00;bo:2:05;g:01;bg:06;in:1:a;g:00;in:0:a;in:2:a",
+			"L s:0500:01;io:0:-;bo:1:05;p:01:02;s:0502:03;c;in:0:a;in:1:a;in:2:a",
+			"L p:00:01;io:0:00;c;bc;r;in:0:a",
 		},
 		N: map[string]int{"quick": 20000, "thorough": 400000},
 	})
